@@ -11,8 +11,78 @@ through ``call_soon_threadsafe``).
 import asyncio
 import asyncio.base_events
 import itertools
+import threading
 
 from .kernel import Hang
+
+
+_JOB = threading.local()
+
+
+class _JobAbort(BaseException):
+    pass
+
+
+def sim_pause():
+    """Called by synthetic resolvers: when running inside a threaded executor
+    job, park here and let the simulator run other work (other executor jobs
+    included) before resuming.  A no-op anywhere else."""
+    job = getattr(_JOB, "current", None)
+    if job is not None:
+        job.pause()
+
+
+class _ThreadedJob:
+    """An executor job run in a real thread, one phase at a time: the thread
+    runs until the resolver calls ``sim_pause()`` (or finishes) while the
+    simulator thread waits, so two jobs can be *inside* their functions at the
+    same virtual time -- as with a real ThreadPoolExecutor -- yet exactly one
+    thread runs at any moment and the seeded scheduler decides who resumes."""
+
+    def __init__(self, func, args):
+        self.func, self.args = func, args
+        self.to_main = threading.Semaphore(0)
+        self.to_job = threading.Semaphore(0)
+        self.started = False
+        self.done = False
+        self.abort = False
+        self.result = None
+        self.exc = None
+        self.thread = threading.Thread(target=self._run, daemon=True)
+
+    def _run(self):
+        _JOB.current = self
+        self.to_job.acquire()
+        try:
+            if not self.abort:
+                self.result = self.func(*self.args)
+        except _JobAbort:
+            pass
+        except BaseException as err:  # noqa: B902 - handed to the future
+            self.exc = err
+        self.done = True
+        self.to_main.release()
+
+    def step(self):
+        """Run the next phase (simulator thread).  True when finished."""
+        if not self.started:
+            self.started = True
+            self.thread.start()
+        self.to_job.release()
+        self.to_main.acquire()
+        return self.done
+
+    def pause(self):
+        self.to_main.release()
+        self.to_job.acquire()
+        if self.abort:
+            raise _JobAbort()
+
+    def cancel(self):
+        if self.started and not self.done:
+            self.abort = True
+            self.to_job.release()
+            self.to_main.acquire(timeout=2.0)
 
 
 class _FakeSelector:
@@ -52,6 +122,9 @@ class SimLoop(asyncio.base_events.BaseEventLoop):
         self._task_counter = itertools.count()
         self.unhandled = []  # exception-handler contexts (never printed)
         self.executor_jobs = 0
+        self.threaded_jobs = False  # executor jobs as pausable real threads
+        self.overlapping_jobs = 0
+        self._jobs = []
         self.set_exception_handler(self._on_unhandled)
         self.set_task_factory(self._make_task)
         # clock_resolution is used to round timers; virtual clock is exact
@@ -95,8 +168,35 @@ class SimLoop(asyncio.base_events.BaseEventLoop):
                 if not fut.done():
                     fut.set_result(res)
 
+        if self.threaded_jobs:
+            tj = _ThreadedJob(func, args)
+            self._jobs.append(tj)
+
+            def phase():
+                if any(j.started and not j.done and j is not tj
+                       for j in self._jobs):
+                    self.overlapping_jobs += 1
+                if tj.step():
+                    if fut.done():
+                        return
+                    if tj.exc is not None:
+                        fut.set_exception(tj.exc)
+                    else:
+                        fut.set_result(tj.result)
+                else:
+                    kernel.schedule(kernel.draw_latency("exec-resume"),
+                                    "exec", phase)
+
+            kernel.schedule(kernel.draw_latency("exec-lat"), "exec", phase)
+            return fut
         kernel.schedule(kernel.draw_latency("exec-lat"), "exec", job)
         return fut
+
+    def close(self):
+        for j in self._jobs:
+            j.cancel()
+        self._jobs = []
+        super().close()
 
     # asyncio.Runner/run_until_complete call these on shutdown paths
     async def shutdown_asyncgens(self):
